@@ -161,3 +161,64 @@ fn c16_header_arith() {
         }
     }
 }
+
+fn wellformed_accepted(v4: bool) {
+    // A well-formed file as an independent writer following doc/datafile.md lays it out: one item
+    // type with two items (0 and 1 data words), two data blocks of symbolic stored sizes s0, s1 >= 0
+    // (an empty block - also as the last one - is legal). The validation pass must accept it and the
+    // accessors must return exactly what was stored.
+    let type_id: u16 = kani::any();
+    let id0: u16 = kani::any();
+    let id1: u16 = kani::any();
+    let w: i32 = kani::any();
+    let s0: i32 = kani::any();
+    let s1: i32 = kani::any();
+    kani::assume(0 <= s0 && s0 <= 1 << 20 && 0 <= s1 && s1 <= 1 << 20);
+    let tk = |id: u16| ((type_id as u32) << 16 | id as u32) as i32;
+    // items: [key0, size 0] [key1, size 4, w]
+    let words = [tk(id0), 0, tk(id1), 4, w];
+    let mut header = any_header(if v4 { 4 } else { 3 }, 1, 2, 2);
+    header.hr.size_items = 20;
+    header.hr.size_data = s0 + s1;
+    let types = 12;
+    let offs = 4 * 2 + 4 * 2 * if v4 { 2 } else { 1 };
+    header.hr.swaplen = 20 + types + offs + 20;
+    header.hr.size = header.hr.swaplen + 8 + s0 + s1;
+    let mut item_types = Vec::with_capacity(1);
+    item_types.push(format::ItemType { type_id: type_id as i32, start: 0, num: 2 });
+    let uds: [i32; 2] = kani::any();
+    kani::assume(uds[0] >= 0 && uds[1] >= 0);
+    let r = Reader {
+        header: header,
+        item_types: item_types,
+        item_offsets: [0, 8].to_vec(),
+        data_offsets: [0, s0].to_vec(),
+        uncomp_data_sizes: if v4 { Some(uds.to_vec()) } else { None },
+        items_raw: words.to_vec(),
+        version: if v4 { Version::V4 } else { Version::V3 },
+    };
+    assert!(r.header.hr.check().is_ok());
+    assert!(r.check().is_ok());
+    assert!(r.num_items() == 2 && r.num_data() == 2);
+    let i0 = r.item(0);
+    let i1 = r.item(1);
+    assert!(i0.type_id == type_id && i0.id == id0 && i0.data.len() == 0);
+    assert!(i1.type_id == type_id && i1.id == id1 && i1.data.len() == 1 && i1.data[0] == w);
+    assert!(r.data_size_file(0) == s0 as usize && r.data_size_file(1) == s1 as usize);
+    let idx = r.item_type_indices(type_id);
+    assert!(idx.start == 0 && idx.end == 2);
+    kani::cover!(s1 == 0, "empty last data block");
+    kani::cover!(s0 == 0 && s1 == 0, "only empty data blocks");
+    mem::forget(r);
+}
+
+#[kani::proof]
+#[kani::unwind(8)]
+fn c16_wellformed_accepted_v3() {
+    wellformed_accepted(false);
+}
+#[kani::proof]
+#[kani::unwind(8)]
+fn c16_wellformed_accepted_v4() {
+    wellformed_accepted(true);
+}
